@@ -1271,7 +1271,13 @@ func stateAnyCommentStart(s *Scanner, c byte) state {
 		return scanContinue
 	}
 
-	panic(s.newDocumentErrorAtCharacter("after first #"))
+	context := "after first #"
+	if s.index < s.dataSize {
+		// "##" could still have become "###": the byte after it is the offending one.
+		s.index++
+		context = "after ##"
+	}
+	panic(s.newDocumentErrorAtCharacter(context))
 }
 
 func stateInlineComment(s *Scanner, c byte) state {
